@@ -238,10 +238,23 @@ func (e *txfeeEnv) govRoute(ctx sdk.Context, k *txfeeKeys, ps [][]txfeeGovMsg) [
 
 const txfeeGovGas = 1_500_000
 
+// govTxFee: what a governance transaction of the genesis delegator declares: the base fee under
+// `floor` plus the base fee under the compiled-in default floor price (a node that — wrongly —
+// prices by anything between the two still executes the proposal; the harness must get to the
+// transaction under test, whose clauses then judge the pricing).
+func govTxFee(floor sdk.Coin) sdk.Coins {
+	fee := sdk.NewCoins(sdk.NewCoin(msgfeesDefaultFloor.Denom, msgfeesDefaultFloor.Amount.MulRaw(txfeeGovGas)))
+	if floor.Amount.IsPositive() {
+		fee = fee.Add(sdk.NewCoin(floor.Denom, floor.Amount.MulRaw(txfeeGovGas)))
+	}
+	return fee
+}
+
 // govFund gives the genesis delegator what its governance transactions will pay under `floor`.
 func (e *txfeeEnv) govFund(ctx sdk.Context, floor sdk.Coin, nProps int) {
-	if floor.Amount.IsPositive() {
-		e.fund(ctx, e.gaddr, sdk.NewCoins(sdk.NewCoin(floor.Denom, floor.Amount.MulRaw(txfeeGovGas*2*int64(nProps)))))
+	fee := govTxFee(floor)
+	for i := 0; i < 2*nProps; i++ {
+		e.fund(ctx, e.gaddr, fee)
 	}
 }
 
@@ -262,10 +275,7 @@ func (e *txfeeEnv) govVote(k *txfeeKeys, floor sdk.Coin, ps [][]txfeeGovMsg) []s
 	}
 	acc := e.app.AccountKeeper.GetAccount(ctx, e.gaddr)
 	seq := acc.GetSequence()
-	fee := sdk.Coins{}
-	if floor.Amount.IsPositive() {
-		fee = sdk.NewCoins(sdk.NewCoin(floor.Denom, floor.Amount.MulRaw(txfeeGovGas)))
-	}
+	fee := govTxFee(floor)
 	var txs [][]byte
 	var ids []uint64
 	for i, p := range ps {
@@ -289,9 +299,12 @@ func (e *txfeeEnv) govVote(k *txfeeKeys, floor sdk.Coin, ps [][]txfeeGovMsg) []s
 		}
 	}
 	fres := e.finalize(txs)
+	// a governance transaction the node refuses or fails: the proposal never gets to its vote
+	// (reported as its fate; the model expects `ok` / `fail`, so this is seen)
+	txFailed := map[uint64]bool{}
 	for i, r := range fres.TxResults {
 		if r.Code != 0 {
-			e.t.Fatalf("governance tx %d failed: %s/%d %s", i, r.Codespace, r.Code, r.Log)
+			txFailed[ids[i/2]] = true
 		}
 	}
 	if _, err := e.app.Commit(); err != nil {
@@ -308,6 +321,8 @@ func (e *txfeeEnv) govVote(k *txfeeKeys, floor sdk.Coin, ps [][]txfeeGovMsg) []s
 	for _, id := range ids {
 		pr, err := e.app.GovKeeper.Proposals.Get(ctx, id)
 		switch {
+		case txFailed[id]:
+			res = append(res, "txfail")
 		case err != nil:
 			res = append(res, "missing")
 		case pr.Status == govv1.StatusPassed:
@@ -367,7 +382,13 @@ func (e *txfeeEnv) runGov(k *txfeeKeys, via string, floor sdk.Coin, ps [][]txfee
 	return strings.Join(res, "/")
 }
 
-// cfgDump: msgfees params and schedule as the keeper returns them, canonical.
+// cfgDump: msgfees params and schedule as the keeper returns them, canonical.  Read the way the fee
+// code reads them — the accessors GetFloorGasPrice / GetConversionFeeDenom / GetNhashPerUsdMil and
+// one GetMsgFee lookup per message type (ante decorators, router and fee handler never iterate) —
+// AND by iterating the store / reading the params record; where the two disagree the lookup's
+// answer is printed (it is what a transaction is charged by) plus a `<type>~store:` / `~store`
+// entry with what the store holds, so a lookup that does not answer from the state of the context
+// it is given shows up in `cfg=` at once.
 func (e *txfeeEnv) cfgDump(ctx sdk.Context, k *txfeeKeys) string {
 	p := e.app.MsgFeesKeeper.GetParams(ctx)
 	short := map[string]string{}
@@ -378,12 +399,7 @@ func (e *txfeeEnv) cfgDump(ctx sdk.Context, k *txfeeKeys) string {
 	for r, a := range k.addr {
 		role[a.String()] = r
 	}
-	var ents []string
-	_ = e.app.MsgFeesKeeper.IterateMsgFees(ctx, func(f msgfeestypes.MsgFee) bool {
-		t, ok := short[f.MsgTypeUrl]
-		if !ok {
-			t = f.MsgTypeUrl
-		}
+	render := func(f msgfeestypes.MsgFee) string {
 		r, ok := role[f.Recipient]
 		if !ok {
 			r = "?"
@@ -392,13 +408,53 @@ func (e *txfeeEnv) cfgDump(ctx sdk.Context, k *txfeeKeys) string {
 		if !f.AdditionalFee.Amount.IsNil() {
 			amt = f.AdditionalFee.Amount
 		}
-		ents = append(ents, fmt.Sprintf("%s:%s%s:%s:%d", t, amt.String(), f.AdditionalFee.Denom, r, f.RecipientBasisPoints))
+		return fmt.Sprintf("%s%s:%s:%d", amt.String(), f.AdditionalFee.Denom, r, f.RecipientBasisPoints)
+	}
+	stored := map[string]string{}
+	var ents []string
+	_ = e.app.MsgFeesKeeper.IterateMsgFees(ctx, func(f msgfeestypes.MsgFee) bool {
+		t, ok := short[f.MsgTypeUrl]
+		if !ok {
+			ents = append(ents, f.MsgTypeUrl+":"+render(f))
+			return false
+		}
+		stored[t] = render(f)
 		return false
 	})
-	sort.Strings(ents)
-	amt := sdkmath.ZeroInt()
-	if !p.FloorGasPrice.Amount.IsNil() {
-		amt = p.FloorGasPrice.Amount
+	for t, u := range txfeeTypeURL {
+		look := ""
+		if f, err := e.app.MsgFeesKeeper.GetMsgFee(ctx, u); err != nil {
+			look = "err"
+		} else if f != nil {
+			look = render(*f)
+		}
+		st := stored[t]
+		if look != "" {
+			ents = append(ents, t+":"+look)
+		}
+		if look != st {
+			if st == "" {
+				st = "none"
+			}
+			ents = append(ents, t+"~store:"+st)
+		}
 	}
-	return fmt.Sprintf("%s%s;%s:%d;%s", amt.String(), p.FloorGasPrice.Denom, p.ConversionFeeDenom, p.NhashPerUsdMil, JoinOr(ents, "|"))
+	sort.Strings(ents)
+	coinStr := func(c sdk.Coin) string {
+		amt := sdkmath.ZeroInt()
+		if !c.Amount.IsNil() {
+			amt = c.Amount
+		}
+		return amt.String() + c.Denom
+	}
+	floor := coinStr(e.app.MsgFeesKeeper.GetFloorGasPrice(ctx))
+	conv := fmt.Sprintf("%s:%d", e.app.MsgFeesKeeper.GetConversionFeeDenom(ctx), e.app.MsgFeesKeeper.GetNhashPerUsdMil(ctx))
+	if sp := fmt.Sprintf("%s:%d", p.ConversionFeeDenom, p.NhashPerUsdMil); sp != conv {
+		conv += "~store:" + sp
+	}
+	sched := JoinOr(ents, "|")
+	if sf := coinStr(p.FloorGasPrice); sf != floor {
+		sched += "|floor~store:" + sf
+	}
+	return fmt.Sprintf("%s;%s;%s", floor, conv, sched)
 }
